@@ -29,6 +29,8 @@ pub fn units(tier: &str, _seed: u64) -> Vec<String> {
         v.push(unit(&[("shape", shapes[0]), ("n", "12"), ("win", "1"), ("fs", "PEN"), ("k", "sym"), ("what", "sub2"), ("lm", lm), ("scale", "1"), ("bud", "30")]));
         v.push(unit(&[("shape", shapes[1]), ("n", "13"), ("win", "1"), ("fs", "PEN"), ("k", "sym"), ("what", "perm"), ("lm", lm), ("bud", "30")]));
     }
+    // an hourly year from a two-hourly one (4380 -> 8760 steps), with load matching
+    v.push(unit(&[("shape", shapes[0]), ("n", "4380"), ("win", "1"), ("fs", "PEN"), ("k", "sym"), ("what", "sub2"), ("lm", "1"), ("scale", "1"), ("bud", "30")]));
     if tier == "thorough" {
         for s in shapes {
             v.push(unit(&[("shape", s), ("n", "3"), ("fs", "CAN"), ("k", "sym"), ("what", "perm")]));
